@@ -265,6 +265,8 @@ def run_once(spec, balancer=None):
     res["probes"] = dict(sim.probes)
     res["affected"] = sorted(sim.affected)
     res["affected_all"] = sim.affected_all
+    res["affected_rows"] = sorted([list(x) for x in sim.affected_rows], key=repr)
+    res["batches_seen"] = sim.batch_no
     res["digest"] = sim.digest()
     res["interleave"] = sim.interleave.hexdigest()
     res["simtime"] = sim.now
